@@ -16,7 +16,7 @@ M, L = "pams.order.MARKET_ORDER", "pams.order.LIMIT_ORDER"
 
 _ATOMS = {
     "self.kind", "other.kind", "self.price", "other.price", "self.placed_at", "other.placed_at",
-    "self.order_id", "other.order_id", "self.is_buy", "gt", M, L,
+    "self.order_id", "other.order_id", "self.is_buy", "other.is_buy", "gt", M, L,
 }
 
 
@@ -31,6 +31,7 @@ def _order_worlds() -> Iterable[Dict[str, Any]]:
             ids = [{"self.order_id": w["a"], "other.order_id": w["b"]} for w in weak_orders(["a", "b"])]
             for w in product_worlds(prices, times, ids, options("self.is_buy", [True, False]), options("gt", [True, False])):
                 w.update({"self.kind": ks, "other.kind": ko, M: "M", L: "L"})
+                w["other.is_buy"] = w["self.is_buy"]  # comparability is checked first: both orders are of one side
                 yield w
 
 
@@ -160,6 +161,37 @@ def _scan_heap(ctx: Ctx, f, path: Path, dirty: Dict[str, Any], out: List[Dict[st
             dirty.update(merged)
 
 
+def _no_iteration_ran(p: Path) -> bool:
+    """every loop iteration that touches a queue also appends to one local list L, and the path has
+    decided len(L) == 0 afterwards: then no such iteration ran (an infeasible combination otherwise)"""
+    from ..kit import nf_cmp
+    from ..terms import Unrecognised, cmp_nf
+
+    companions: Optional[set] = None
+    for l in [e for e in p.walk_events(True) if e.kind == "loop"]:
+        for bp in l.paths:
+            if bp.exit[0] == "raise":
+                continue
+            mut = [e for e in bp.events if e.kind == "call" and e.data.get("mutates") is not None and key(strip_ver(e.data["mutates"])).endswith("priority_queue")]
+            if not mut:
+                continue
+            apps = {e.recv for e in bp.events if e.kind == "call" and e.name == "append" and e.recv is not None and e.recv[0] == "sym"}
+            companions = apps if companions is None else (companions & apps)
+    if not companions:
+        return False
+    for c, pol, _ in p.conds:
+        c = strip_ver(c)
+        for L in companions:
+            ln = ("call", ("name", "len"), (L,), (), None)
+            try:
+                nf = nf_cmp(c if pol else ("not", c), integer=True)
+            except Unrecognised:
+                continue
+            if nf in (cmp_nf("==", ln, ("const", 0), integer=True), cmp_nf("<=", ln, ("const", 0), integer=True)):
+                return True
+    return False
+
+
 def _literal_of(path: Path, v: Term) -> Optional[Term]:
     for e in path.walk_events(True):
         if e.kind == "note" and e.data.get("what") == "alloc" and e.data.get("sym") == v:
@@ -187,6 +219,8 @@ def r2(ctx: Ctx) -> None:
             n += 1
             dirty: Dict[str, Any] = {}
             _scan_heap(ctx, f, p, dirty, problems)
+            if dirty and _no_iteration_ran(p):
+                continue  # the path decided that the list filled alongside every queue mutation is empty: no mutation happened
             for q, why in dirty.items():
                 problems.append({"what": f"returns with {q} possibly not a heap after {why}", "node": f.node})
         uniq = sorted({pr["what"] for pr in problems})
